@@ -150,6 +150,18 @@ def _mix3():
         E['C'](id=1, a=a1); E['C'](id=2, a=a2)
     return Model('mix3', define, populate, tags=['mix3'], opts=dict(rel='mix3', req=True, cascade=None, uniq=False, inherit=False, ckey=False, pk='int', lazy=False, np='default', lazy_rel=False))
 
+def _ckey2():
+    """one entity with TWO composite keys that share an attribute, all parts optional: one assignment can complete
+    one key and collide on the other"""
+    def define(db):
+        from pony.orm import PrimaryKey, Optional, composite_key
+        g = dict(db=db, PrimaryKey=PrimaryKey, Optional=Optional, composite_key=composite_key)
+        exec('class A(db.Entity):\n    id = PrimaryKey(int)\n    x = Optional(int)\n    y = Optional(int)\n    z = Optional(int)\n'
+             '    composite_key(x, y)\n    composite_key(x, z)\n', g)
+    def populate(E):
+        E['A'](id=1, y=0, z=0); E['A'](id=2, x=1, y=1, z=0)
+    return Model('ckey2', define, populate, tags=['ckey2'], opts=dict(rel='none', req=False, cascade=None, uniq=False, inherit=False, ckey=True, pk='int', lazy=False, np='default', lazy_rel=False))
+
 def catalogue(tier='quick'):
     """Model list. quick: one representative per relationship kind and option that changes code
     paths; thorough: the full option product."""
@@ -168,7 +180,7 @@ def catalogue(tier='quick'):
     M.append(_rel_model('o2m', req=True, cascade=False))
     M.append(_rel_model('o2m', req=False, cascade=True))
     M.append(_rel_model('o2m', req=False, pk='auto'))
-    M.append(_casc3(False)); M.append(_casc3(True)); M.append(_o2o3()); M.append(_mix3())
+    M.append(_casc3(False)); M.append(_casc3(True)); M.append(_o2o3()); M.append(_mix3()); M.append(_ckey2())
     if tier != 'quick':
         M.append(_rel_model('o2o', req=False, cascade=True))
         M.append(_rel_model('o2o', req=True, cascade=False))
